@@ -75,6 +75,12 @@ def main():
     except core.HarnessError as e:
         print("HARNESS-ERROR:", e)
         code = core.EXIT_HARNESS
+    try:  # nothing we started may outlive the check (os._exit skips multiprocessing's own clean-up)
+        import multiprocessing
+        for ch in multiprocessing.active_children():
+            ch.terminate()
+    except Exception:
+        pass
     sys.stdout.flush()
     os._exit(code)
 
